@@ -583,7 +583,7 @@ func checkDuplicateSource(c *core.Ctx, rule string) {
 				continue
 			}
 			if core.DependsOn(v, volatileLookup) {
-				bad = c.PosStr(r.Pos())
+				bad = posOrEnd(c, r.Pos())
 			} else if core.DependsOn(v, exportedRecordField) {
 				positive = true
 			}
